@@ -31,9 +31,9 @@ type Type struct {
 }
 
 // Bool, Int and Uint construct scalar types.
-func Bool() Type       { return Type{K: KBool, N: 1} }
-func Int(n int) Type   { return Type{K: KInt, N: n} }
-func Uint(n int) Type  { return Type{K: KUint, N: n} }
+func Bool() Type      { return Type{K: KBool, N: 1} }
+func Int(n int) Type  { return Type{K: KInt, N: n} }
+func Uint(n int) Type { return Type{K: KUint, N: n} }
 func Array(n int, e Type) Type {
 	return Type{K: KArray, N: n, E: &e}
 }
@@ -127,23 +127,23 @@ const (
 
 // Stmt is a statement.
 type Stmt struct {
-	K       string  `json:"k"`
-	Name    string  `json:"name,omitempty"`
+	K       string   `json:"k"`
+	Name    string   `json:"name,omitempty"`
 	Names   []string `json:"names,omitempty"`
-	T       *Type   `json:"t,omitempty"`
-	Op      string  `json:"op,omitempty"`
-	Idx     int     `json:"idx,omitempty"`
-	LoopIdx string  `json:"loopidx,omitempty"` // index is this loop variable instead of Idx
-	Field   string  `json:"field,omitempty"`
-	Fn      string  `json:"fn,omitempty"`
-	E       *Expr   `json:"e,omitempty"`
-	Es      []*Expr `json:"es,omitempty"`
-	Then    []*Stmt `json:"then,omitempty"`
-	Else    []*Stmt `json:"else,omitempty"`
-	Var     string  `json:"var,omitempty"`
-	Count   int     `json:"count,omitempty"`
-	Body    []*Stmt `json:"body,omitempty"`
-	ForStep string  `json:"forstep,omitempty"` // "i++" (default) or "i = i + 1"
+	T       *Type    `json:"t,omitempty"`
+	Op      string   `json:"op,omitempty"`
+	Idx     int      `json:"idx,omitempty"`
+	LoopIdx string   `json:"loopidx,omitempty"` // index is this loop variable instead of Idx
+	Field   string   `json:"field,omitempty"`
+	Fn      string   `json:"fn,omitempty"`
+	E       *Expr    `json:"e,omitempty"`
+	Es      []*Expr  `json:"es,omitempty"`
+	Then    []*Stmt  `json:"then,omitempty"`
+	Else    []*Stmt  `json:"else,omitempty"`
+	Var     string   `json:"var,omitempty"`
+	Count   int      `json:"count,omitempty"`
+	Body    []*Stmt  `json:"body,omitempty"`
+	ForStep string   `json:"forstep,omitempty"` // "i++" (default) or "i = i + 1"
 }
 
 // Param is a function parameter.
@@ -164,7 +164,16 @@ type Func struct {
 // Prog is a whole program; the function called "main" is the entry point.
 type Prog struct {
 	Structs []StructDef `json:"structs,omitempty"`
-	Funcs   []*Func     `json:"funcs"`
+	// Consts are untyped package-level constants (`const NAME = VAL`).  A
+	// literal expression whose Name is set refers to one of them.
+	Consts []ConstDef `json:"consts,omitempty"`
+	Funcs  []*Func    `json:"funcs"`
+}
+
+// ConstDef is an untyped package-level integer constant.
+type ConstDef struct {
+	Name string `json:"name"`
+	Val  string `json:"val"`
 }
 
 // Main returns the main function.
@@ -219,6 +228,12 @@ func (p *Prog) Source() string {
 			fmt.Fprintf(&sb, "\t%s %s\n", f.Name, f.T)
 		}
 		sb.WriteString("}\n\n")
+	}
+	for _, c := range p.Consts {
+		fmt.Fprintf(&sb, "const %s = %s\n", c.Name, c.Val)
+	}
+	if len(p.Consts) > 0 {
+		sb.WriteString("\n")
 	}
 	for _, f := range p.Funcs {
 		fmt.Fprintf(&sb, "func %s(", f.Name)
@@ -352,6 +367,9 @@ func (e *Expr) String() string {
 	case EVar, ELoopVar:
 		return e.Name
 	case ELit:
+		if e.Name != "" {
+			return e.Name // package-level constant
+		}
 		return e.Val
 	case EBin:
 		return fmt.Sprintf("(%s %s %s)", e.A[0], e.Name, e.A[1])
